@@ -82,9 +82,23 @@ func Verify(stump Stump, delHashes []Hash, proof Proof) ([]int, error) {
 	if err != nil {
 		return nil, err
 	}
+	// Each calculated root must be matched against the root of the tree that
+	// the targets are actually in, not against any root with the same hash.
+	expectedIndexes, err := targetRootIndexes(stump.NumLeaves, proof.Targets)
+	if err != nil {
+		return nil, err
+	}
+	if len(expectedIndexes) != len(rootCandidates) ||
+		len(stump.Roots) != int(numRoots(stump.NumLeaves)) {
+
+		return nil, fmt.Errorf("StumpVerify fail. Invalid proof. Targets are in %d "+
+			"trees but calculated %d roots", len(expectedIndexes), len(rootCandidates))
+	}
+
 	rootIndexes := make([]int, 0, len(rootCandidates))
 	for i := range stump.Roots {
 		if len(rootCandidates) > len(rootIndexes) &&
+			len(stump.Roots)-(i+1) == expectedIndexes[len(rootIndexes)] &&
 			stump.Roots[len(stump.Roots)-(i+1)] == rootCandidates[len(rootIndexes)] {
 
 			rootIndexes = append(rootIndexes, len(stump.Roots)-(i+1))
@@ -253,4 +267,35 @@ func rootsToDestory(numAdds, numLeaves uint64, origRoots []Hash) []uint64 {
 	}
 
 	return deleted
+}
+
+// targetRootIndexes returns the indexes of the roots of the trees that the given
+// targets are in. The indexes are ordered from the lowest tree to the highest, which
+// is the order calculateHashes returns the calculated roots in.
+func targetRootIndexes(numLeaves uint64, targets []uint64) ([]int, error) {
+	forestRows := TreeRows(numLeaves)
+
+	treeRows := make(map[uint8]struct{}, len(targets))
+	for _, target := range targets {
+		if !inForest(target, numLeaves, forestRows) {
+			return nil, fmt.Errorf("position %d doesn't exist in an accumulator "+
+				"with %d leaves", target, numLeaves)
+		}
+		rootPos, err := getRootPosition(target, numLeaves, forestRows)
+		if err != nil {
+			return nil, err
+		}
+		treeRows[DetectRow(rootPos, forestRows)] = struct{}{}
+	}
+
+	indexes := make([]int, 0, len(treeRows))
+	for row := uint8(0); row <= forestRows; row++ {
+		if _, found := treeRows[row]; found {
+			// The roots are ordered from the highest tree to the lowest so
+			// the index is the count of the trees that are higher.
+			indexes = append(indexes, int(numRoots(numLeaves>>(row+1))))
+		}
+	}
+
+	return indexes, nil
 }
